@@ -110,3 +110,21 @@ Qed.
 Print Assumptions C13_capture_untouched.
 Print Assumptions C13_capture_conserves_bytes.
 Print Assumptions C13_divider_split_ideal.
+
+(* Cram documents, the script itself (compile_script transcribed in ScriptCompile.v and compared with the script the real
+   executor hands to its shell): every shell expression stands in the script exactly as written, followed by an empty line
+   and the echo of its divider with its index; cutting the script at the dividers returns the expressions verbatim and in
+   order -- whatever they contain (quotes, line breaks, here-documents) except the divider prefix itself *)
+From SV Require Import ScriptCompile ScriptCompileProofs.
+Theorem C13_script_reads_back : forall exprs salt combined i, exprs <> [] ->
+  Forall (fun e => find_sub PREFIX e = None) exprs ->
+  read_blocks (S (length exprs)) salt combined i (script_join (test_blocks salt combined i exprs)) = Some exprs.
+Proof. exact read_blocks_spec. Qed.
+Example C13_script_instance :      (* two commands, the first over two lines with quotes; streams not combined *)
+  compile_script [83] false [([75], [118; 32; 39])] [[101; 10; 34; 39]; [102]]
+  = Some (T_EXPORT ++ [75; 61] ++ [39; 118; 32; 39; 92; 39; 39; 39] ++ [10]
+          ++ [101; 10; 34; 39] ++ [10; 10] ++ T_ECHO ++ footer [83] 0 ++ [34; 10] ++ T_ECHO2 ++ footer [83] 0 ++ [34; 10]
+          ++ [102] ++ [10; 10] ++ T_ECHO ++ footer [83] 1 ++ [34; 10] ++ T_ECHO2 ++ footer [83] 1 ++ [34])
+  /\ read_blocks 3 [83] false 0 (script_join (test_blocks [83] false 0 [[101; 10; 34; 39]; [102]])) = Some [[101; 10; 34; 39]; [102]].
+Proof. split; vm_compute; reflexivity. Qed.
+Print Assumptions C13_script_reads_back.
